@@ -575,8 +575,14 @@ func (g *Gen) Stmt(depth int) string {
 		s := "@if(" + g.Expr("bool", 2) + ")" + g.Stmts(r.Range(1, 2), depth-1)
 		g.vars = g.vars[:save]
 		if r.Chance(30) {
-			s += "@elseif(" + g.Expr("bool", 1) + ")" + g.Stmts(1, depth-1)
-			g.vars = g.vars[:save]
+			ne := 1
+			if r.Chance(40) {
+				ne = r.Range(2, 7)
+			}
+			for k := 0; k < ne; k++ {
+				s += "@elseif(" + g.Expr("bool", 1) + ")" + g.Stmts(1, depth-1)
+				g.vars = g.vars[:save]
+			}
 		}
 		if r.Chance(50) {
 			s += "@else" + g.Stmts(1, depth-1)
